@@ -12,7 +12,7 @@ reg(Prop('C01', [
     Stream('c01.deep', 1, 1000, 'oracle', shards=8, timeout=900,
            exhaustive='fixed family of large inputs (1k/20k/120k): zero aranges tuples, nested DIE chains, long CFI programs'),
 ], level='proof', design_ref='§5 C01',
-    clauses=[],
+    clauses=['uleb_no_panic', 'sleb_no_panic', 'uleb16_no_panic', 'reader_ops_no_panic'],
     explored_only=[
         'every unmodelled entry point (macros, names accessors, package index, whole-Dwarf walk, read->write converters): impl-side exploration with the oracle "returns normally within 4*len+64 steps, yields nothing after an error where documented"',
         'real stack depth, allocator behaviour, reads outside the buffer by unsafe code (see C10 for the bounds invariant)',
